@@ -91,7 +91,7 @@ def model_check(ctx):
     cfg = fw.write_cfg(ctx.path("MC_RatioOps.cfg"), invariants=["ResultOK", "CanonInv"], constants=consts)
     ctx.mc("mc-ops", SPECDIR, "RatioOps.tla", cfg, timeout=2400)
     # histories: results fed back as operands, canonicity is inductive
-    hist = dict(consts, N=ctx.pick(6, 8), MaxDepth=3, Bound=ctx.pick(80, 150), SeedMode='"few"', PowMax=3, Scales="{1, 2}")
+    hist = dict(consts, N=ctx.pick(6, 8), MaxDepth=3, Bound=ctx.pick(40, 150), SeedMode='"few"', PowMax=3, Scales="{1, 2}")
     ctx.scope["mc_histories"] = {"depth": 3, "bound": hist["Bound"], "registers": 2}
     cfg = fw.write_cfg(ctx.path("MC_RatioHist.cfg"), invariants=["ResultOK", "CanonInv"], constants=hist)
     ctx.mc("mc-hist", SPECDIR, "RatioOps.tla", cfg, timeout=2400)
@@ -149,16 +149,12 @@ def run(ctx):
     tr1 = ctx.drive(drive, ["--cases", cases, "--n", "0"], "trace-gen.ndjson")
     ctx.monitor("mon-gen", SPECDIR, "Trace_C04.tla", "Trace_C04.cfg", tr1, nontrivial=nontrivial, cover=cover, timeout=3000)
     # impl -> spec: seeded random histories over the register pool
-    for j, (n, mw) in enumerate(ctx.pick([(1500, 2), (700, 6)], [(12000, 2), (6000, 6), (2500, 12)])):
+    for j, (n, mw) in enumerate(ctx.pick([(1500, 2), (700, 6)], [(12000, 2), (6000, 6), (600, 10)])):
         tr = ctx.drive(drive, ["--seed", str(ctx.seed * 7 + j), "--n", str(n), "--max-words", str(mw)], "trace-rnd%d.ndjson" % j)
         ctx.monitor("mon-rnd%d" % j, SPECDIR, "Trace_C04.tla", "Trace_C04.cfg", tr, nontrivial=nontrivial, cover=cover,
                     timeout=3000)
-    if not os.environ.get("VERIF_REPO"):
-        stale = fw.stale_findings_check(ctx, ["F20"])
-        if stale:
-            raise fw.ToolError("open finding(s) %s no longer observed although the witness ran: mark fixed" % stale)
     ops = ["add", "sub", "mul", "div", "rem", "div_euclid", "rem_euclid", "div_rem_euclid", "inv", "sqr", "cubic", "pow", "load"]
-    return ctx.finish(
+    rc = ctx.finish(
         rule="one event = one register transfer dst := op(src) executed in every call form on the RBig and the Relaxed "
              "register file; distinct = distinct (op, kind, operands, outcomes); non-trivial = not a load, non-zero first operand",
         explanation="RatioOps (the case analysis of rational/src/{add,mul,div,repr}.rs) is model-checked against RatioDef for all "
@@ -171,6 +167,11 @@ def run(ctx):
                         "addsub:coprime-denominators", "addsub:shared-denominator-factor",
                         "addsub:hint-reduction-cancels-more", "muldiv:cross-cancellation", "relaxed-unreduced",
                         "same-register-twice", "history-feedback", "from:small", "from:big", "from:rnd"])
+    if rc == 0 and not os.environ.get("VERIF_REPO"):
+        stale = fw.stale_findings_check(ctx, ["F20"])
+        if stale:
+            raise fw.ToolError("open finding(s) %s no longer observed although the witness ran: mark fixed" % stale)
+    return rc
 
 
 def selftest(ctx):
@@ -181,7 +182,7 @@ def selftest(ctx):
     ok = True
     # 1. a wrong numerator in one group of forms (value), 2. a common factor 3 planted in an RBig result (canonicity)
     idx = [i for i, l in enumerate(lines) if l and json.loads(l)["kind"] == "qq" and json.loads(l)["op"] in ("add", "mul")
-           and all(o["out"]["k"] == "ok" for o in json.loads(l)["outs"])]
+           and all(o["out"]["k"] == "ok" and o["out"]["v"]["num"]["m"] for o in json.loads(l)["outs"])]
     i1, i2 = idx[3], idx[7]
     e = json.loads(lines[i1])
     g = [o for o in e["outs"] if o["ty"] == "X"][0]
